@@ -155,9 +155,9 @@ func refRunNested(code, input []byte, p022 bool, calleeAddr, calleeCode []byte) 
 			need, adds = int(op)-0x7f, int(op)-0x7f+1
 		case op >= 0x90 && op <= 0x9f:
 			need, adds = int(op)-0x8f+1, int(op)-0x8f+1
-		case op == 0xfa && calleeAddr != nil:
+		case (op == 0xfa || op == 0xf4) && calleeAddr != nil:
 			need, adds = 6, 1
-		case op == 0xf1 && calleeAddr != nil:
+		case (op == 0xf1 || op == 0xf2) && calleeAddr != nil:
 			need, adds = 7, 1
 		case op == 0x5a:
 			return refResult{kind: "skip"}
@@ -323,15 +323,21 @@ func refRunNested(code, input []byte, p022 bool, calleeAddr, calleeCode []byte) 
 			push(big.NewInt(int64(len(code))))
 		case op == 0x3d:
 			push(big.NewInt(int64(len(rd))))
-		case op == 0xfa || op == 0xf1:
+		case op == 0xfa || op == 0xf1 || op == 0xf2 || op == 0xf4:
+			// CALLCODE (value 0) and DELEGATECALL run the callee's CODE in a fresh frame (own stack, memory,
+			// pc and jump-destination set) exactly like CALL as far as the computational opcodes can tell
+			// (storage, ADDRESS, CALLER are outside the computational set and make the reference skip)
 			_, addr := pop(), pop()
-			if op == 0xf1 {
+			if op == 0xf1 || op == 0xf2 {
 				if v := pop(); v.Sign() != 0 {
 					return refResult{kind: "skip", why: "value transfer"}
 				}
 			}
 			inOff, inSize, retOff, retSize := pop(), pop(), pop(), pop()
 			isIdentity := addr.Cmp(big.NewInt(4)) == 0
+			if isIdentity && (op == 0xf2 || op == 0xf4) {
+				return refResult{kind: "skip", why: "precompile through CALLCODE/DELEGATECALL"}
+			}
 			if !isIdentity && (!bytes.Equal(leftPad32(addr.Bytes())[12:], calleeAddr) || addr.BitLen() > 160) {
 				return refResult{kind: "skip", why: "call to another address"}
 			}
